@@ -15,7 +15,11 @@ import (
 	"time"
 
 	sdkmath "cosmossdk.io/math"
+	codectypes "github.com/cosmos/cosmos-sdk/codec/types"
 	sdk "github.com/cosmos/cosmos-sdk/types"
+	authcodec "github.com/cosmos/cosmos-sdk/x/auth/codec"
+	params2 "github.com/palomachain/paloma/v2/app/params"
+	palomamod "github.com/palomachain/paloma/v2/x/paloma"
 	sdkerrors "github.com/cosmos/cosmos-sdk/types/errors"
 	authtypes "github.com/cosmos/cosmos-sdk/x/auth/types"
 	vestingtypes "github.com/cosmos/cosmos-sdk/x/auth/vesting/types"
@@ -66,6 +70,77 @@ type world struct {
 	hasFunders bool
 	activated  map[int]int
 	lastLocked map[int]*big.Int
+	ethHeight  uint64
+	wiped      int
+	lastTry    *tryInfo
+}
+
+type tryInfo struct {
+	nonce      uint64
+	cursor     uint64
+	observed   bool
+	tryErr     error
+	panicked   bool
+	repeatErr  error
+	repeatSame bool
+}
+
+// armed runs f with the fault of o armed on the keeper's collaborators.
+func (w *world) armed(o op, f func()) {
+	w.e.flt.reset(o.fault, o.fpanic)
+	defer w.e.flt.reset(0, false)
+	f()
+}
+
+func (w *world) saleClaim(o op, nonce uint64) *skywaytypes.MsgLightNodeSaleClaim {
+	return &skywaytypes.MsgLightNodeSaleClaim{
+		ChainReferenceId: chainStr(o.chain), SkywayNonce: nonce, EventNonce: nonce, EthBlockHeight: 5 + w.ethHeight,
+		ClientAddress: w.str(o.b), Amount: sdkmath.NewIntFromBigInt(o.amt),
+		SmartContractAddress: contractStr(o.contract), CompassId: "compass",
+	}
+}
+
+// probe: what the RAW keeper function (no message branch, no attestation cache context) does on a
+// throw-away branch of the current state, with the fault of o armed: outcome class, number of
+// collaborator calls made, and the projection of the branch before it is dropped.
+type probe struct {
+	class int64
+	calls int
+	obs   obs
+	log   []string
+}
+
+func (w *world) rawProbe(o op) *probe {
+	e := w.e
+	cctx, _ := e.ctx.CacheContext()
+	var err error
+	panicked := false
+	e.flt.reset(o.fault, o.fpanic)
+	func() {
+		defer func() {
+			if r := recover(); r != nil {
+				panicked = true
+			}
+		}()
+		switch o.kind {
+		case "AddLicence":
+			err = e.paloma.CreateLightNodeClientLicense(cctx, w.str(o.a), w.str(o.b),
+				sdk.Coin{Denom: denomStr(o.d), Amount: sdkmath.NewIntFromBigInt(o.amt)}, o.months)
+		case "Register":
+			err = e.paloma.CreateLightNodeClientAccount(cctx, w.str(o.a))
+		case "Sale":
+			err = e.skyway.AttestationHandler.Handle(cctx, skywaytypes.Attestation{}, w.saleClaim(o, 1))
+		case "SetLegacy":
+			_, err = e.msg.SetLegacyLightNodeClients(cctx, &palomatypes.MsgSetLegacyLightNodeClients{Metadata: md(w.str(o.a))})
+		}
+	}()
+	calls, log := e.flt.calls, e.flt.log
+	e.flt.reset(0, false)
+	saved := e.ctx
+	e.ctx = cctx
+	ob := w.observe()
+	e.ctx = saved
+	return &probe{class: classify(err, panicked, o.kind == "Sale"), calls: calls, obs: ob, log: log}
 }
 
 func addrOf(i int) sdk.AccAddress {
@@ -248,6 +323,8 @@ func classify(err error, panicked bool, sale bool) int64 {
 	}
 	msg := err.Error()
 	switch {
+	case errors.Is(err, errInjected) || strings.Contains(msg, errInjected.Error()):
+		return 18
 	case errors.Is(err, palomatypes.ErrInvalidParameters):
 		return 2
 	case errors.Is(err, palomatypes.ErrLicenseExists):
@@ -299,9 +376,35 @@ type op struct {
 	list     []int
 	pairs    [][2]int
 	dt       int64
+	fault    int    // the fault-th collaborator call of the operation fails (0: none)
+	fpanic   bool   // ... by panic (otherwise by error where the method can return one)
+	route    string // Sale: "" = processAttestation hook, "try" = TryAttestation under recover (as the end blocker)
 }
 
+func (o op) atomicKind() bool { return o.kind == "AddLicence" || o.kind == "Register" || o.kind == "Sale" }
+
+func (o op) kd() string {
+	if o.fpanic {
+		return "FPanic"
+	}
+	return "FErr"
+}
+
+// coq: the extended operation (LightNodeExt.xop)
 func (o op) coq() string {
+	switch o.kind {
+	case "SetLegacy":
+		return fmt.Sprintf("(XSetLegacy %d %s)", o.fault, o.kd())
+	case "Genesis":
+		return "XGenesis"
+	}
+	if o.fault != 0 && o.atomicKind() {
+		return fmt.Sprintf("(XFault %d %s %s)", o.fault, o.kd(), o.plain())
+	}
+	return fmt.Sprintf("(XOp %s)", o.plain())
+}
+
+func (o op) plain() string {
 	switch o.kind {
 	case "AddLicence":
 		return fmt.Sprintf("(AddLicence %s %s %s %s %d)", keyT(o.a), keyT(o.b), zi(int64(o.d)), emit.Z(o.amt), o.months)
@@ -339,19 +442,59 @@ func (w *world) apply(o op) int64 {
 	e := w.e
 	switch o.kind {
 	case "AddLicence":
-		err, p := e.deliver(func(ctx context.Context) error {
-			_, err := e.msg.AddLightNodeClientLicense(ctx, &palomatypes.MsgAddLightNodeClientLicense{
-				Metadata: md(w.str(o.a)), ClientAddress: w.str(o.b),
-				Amount: sdk.Coin{Denom: denomStr(o.d), Amount: sdkmath.NewIntFromBigInt(o.amt)}, VestingMonths: o.months})
-			return err
+		var err error
+		var p bool
+		w.armed(o, func() {
+			err, p = e.deliver(func(ctx context.Context) error {
+				_, err := e.msg.AddLightNodeClientLicense(ctx, &palomatypes.MsgAddLightNodeClientLicense{
+					Metadata: md(w.str(o.a)), ClientAddress: w.str(o.b),
+					Amount: sdk.Coin{Denom: denomStr(o.d), Amount: sdkmath.NewIntFromBigInt(o.amt)}, VestingMonths: o.months})
+				return err
+			})
 		})
 		return classify(err, p, false)
 	case "Register":
-		err, p := e.deliver(func(ctx context.Context) error {
-			_, err := e.msg.RegisterLightNodeClient(ctx, &palomatypes.MsgRegisterLightNodeClient{Metadata: md(w.str(o.a))})
-			return err
+		var err error
+		var p bool
+		w.armed(o, func() {
+			err, p = e.deliver(func(ctx context.Context) error {
+				_, err := e.msg.RegisterLightNodeClient(ctx, &palomatypes.MsgRegisterLightNodeClient{Metadata: md(w.str(o.a))})
+				return err
+			})
 		})
 		return classify(err, p, false)
+	case "SetLegacy":
+		var err error
+		var p bool
+		w.armed(o, func() {
+			err, p = e.deliver(func(ctx context.Context) error {
+				_, err := e.msg.SetLegacyLightNodeClients(ctx, &palomatypes.MsgSetLegacyLightNodeClients{Metadata: md(w.str(o.a))})
+				return err
+			})
+		})
+		return classify(err, p, false)
+	case "Genesis":
+		// ExportGenesis -> JSON -> wipe the x/paloma store -> InitGenesis
+		gs := palomamod.ExportGenesis(e.ctx, *e.paloma)
+		bz := e.cdc.MustMarshalJSON(gs)
+		var gs2 palomatypes.GenesisState
+		e.cdc.MustUnmarshalJSON(bz, &gs2)
+		st := e.ctx.KVStore(e.pkey)
+		var ks [][]byte
+		it := st.Iterator(nil, nil)
+		for ; it.Valid(); it.Next() {
+			ks = append(ks, append([]byte{}, it.Key()...))
+		}
+		it.Close()
+		for _, k := range ks {
+			st.Delete(k)
+		}
+		w.wiped = len(ks)
+		if all, _ := e.paloma.AllLightNodeClientLicenses(e.ctx); len(all) != 0 {
+			panic("x/paloma store not wiped")
+		}
+		palomamod.InitGenesis(e.ctx, *e.paloma, gs2)
+		return 0
 	case "Auth":
 		err, p := e.deliver(func(ctx context.Context) error {
 			_, err := e.msg.AuthLightNodeClient(ctx, &palomatypes.MsgAuthLightNodeClient{Metadata: md(w.str(o.a))})
@@ -359,28 +502,61 @@ func (w *world) apply(o op) int64 {
 		})
 		return classify(err, p, false)
 	case "Sale":
-		claim := &skywaytypes.MsgLightNodeSaleClaim{
-			ChainReferenceId: chainStr(o.chain), SkywayNonce: 1, EventNonce: 1, EthBlockHeight: 5,
-			ClientAddress: w.str(o.b), Amount: sdkmath.NewIntFromBigInt(o.amt),
-			SmartContractAddress: contractStr(o.contract), CompassId: "compass",
-		}
 		// the handler's own verdict, on a branch that is thrown away ...
-		class := func() (c int64) {
+		class := w.rawProbe(o).class
+		if o.route != "try" {
+			// ... then the real thing: processAttestation with its own cache context
+			claim := w.saleClaim(o, 1)
+			w.armed(o, func() {
+				defer func() { _ = recover() }()
+				if err := e.skyway.VerifC18ProcessAttestation(e.ctx, &skywaytypes.Attestation{}, claim); err != nil {
+					class = 98
+				}
+			})
+			return class
+		}
+		// ... or the whole machinery: TryAttestation (votes suffice) under a recover, as skyway's
+		// EndBlocker runs it
+		last, _ := e.skyway.GetLastObservedSkywayNonce(e.ctx, chainStr(o.chain))
+		w.ethHeight++
+		claim := w.saleClaim(o, last+1)
+		mkAtt := func() *skywaytypes.Attestation {
+			any, err := codectypes.NewAnyWithValue(claim)
+			if err != nil {
+				panic(err)
+			}
+			val, _ := authcodec.NewBech32Codec(params2.ValidatorAddressPrefix).BytesToString(addrOf(1))
+			return &skywaytypes.Attestation{Observed: false, Votes: []string{val}, Height: uint64(e.ctx.BlockHeight()), Claim: any}
+		}
+		info := &tryInfo{nonce: last + 1}
+		w.armed(o, func() {
 			defer func() {
 				if r := recover(); r != nil {
-					c = -1
+					info.panicked = true
 				}
 			}()
-			cctx, _ := e.ctx.CacheContext()
-			return classify(e.skyway.AttestationHandler.Handle(cctx, skywaytypes.Attestation{}, claim), false, true)
-		}()
-		// ... then the real thing: processAttestation with its own cache context
+			info.tryErr = e.skyway.TryAttestation(e.ctx, mkAtt())
+		})
+		if info.tryErr != nil {
+			class = 98
+		}
+		info.cursor, _ = e.skyway.GetLastObservedSkywayNonce(e.ctx, chainStr(o.chain))
+		hash, _ := claim.ClaimHash()
+		if a := e.skyway.GetAttestation(e.ctx, chainStr(o.chain), last+1, hash); a != nil {
+			info.observed = a.Observed
+		}
+		// the tally never gets to this event again; a second attempt is refused and changes nothing
+		before := w.observe()
 		func() {
-			defer func() { _ = recover() }()
-			if err := e.skyway.VerifC18ProcessAttestation(e.ctx, &skywaytypes.Attestation{}, claim); err != nil {
-				class = 98
-			}
+			defer func() {
+				if r := recover(); r != nil {
+					info.repeatErr = nil
+				}
+			}()
+			info.repeatErr = e.skyway.TryAttestation(e.ctx, mkAtt())
 		}()
+		info.repeatSame = before.eq(w.observe())
+		w.lastTry = info
 		return class
 	case "Send":
 		err := e.bank.SendCoins(e.ctx, w.addrs[o.a.id], w.addrs[o.b.id], sdk.Coins{sdk.Coin{Denom: denomStr(o.d), Amount: sdkmath.NewIntFromBigInt(o.amt)}})
@@ -557,6 +733,9 @@ func (g *gen) next() op {
 		default:
 			o.amt = big.NewInt(int64(1 + r.Intn(3000)))
 		}
+		if r.Intn(2) == 0 {
+			o.route = "try"
+		}
 		g.lic[o.b] = true
 		return o
 	case x < 79:
@@ -568,18 +747,27 @@ func (g *gen) next() op {
 			o.d = 1
 		}
 		return o
-	case x < 82:
-		return op{kind: "Grant", a: key{g.anyID(), false}, b: key{g.anyID(), false}}
-	case x < 85:
+	case x < 81:
+		o := op{kind: "Grant", a: key{g.anyID(), false}, b: key{g.anyID(), false}}
+		if g.w.feegranter >= 0 && r.Intn(2) == 0 {
+			o.a.id = g.w.feegranter // a grant by the light-node fee granter: a "legacy" client
+		}
+		return o
+	case x < 84:
+		if r.Intn(3) == 0 {
+			return op{kind: "Genesis"}
+		}
+		return op{kind: "SetLegacy", a: key{g.anyID(), false}}
+	case x < 87:
 		return op{kind: "SetFeegranter", a: key{g.anyID(), false}}
-	case x < 88:
+	case x < 90:
 		n := r.Intn(4)
 		l := make([]int, n)
 		for i := range l {
 			l[i] = g.fundedID()
 		}
 		return op{kind: "SetFunders", list: l}
-	case x < 89:
+	case x < 91:
 		var ps [][2]int
 		if r.Intn(3) != 0 {
 			ps = append(ps, [2]int{1, 11})
@@ -680,7 +868,25 @@ func runHistory(run *emit.Run, idx int, hostile bool, script *scripted) {
 		o := ops[i]
 		if o.kind == "" {
 			o = g.next()
+			// a collaborator fault: measure the calls of the fault-free run on a throw-away branch, then
+			// let one of them (or the one after the last: never reached) fail
+			if (o.atomicKind() || o.kind == "SetLegacy") && r.Intn(100) < faultPct {
+				m := w.rawProbe(o).calls
+				o.fault = 1 + r.Intn(m+1)
+				o.fpanic = r.Intn(3) == 0
+				run.Count("fault", fmt.Sprintf("%s call %d of %d", o.kind, o.fault, m))
+			}
 			ops[i] = o
+		}
+		// what the raw keeper function leaves behind (same fault), on a branch that is dropped
+		var probes []string
+		var pr *probe
+		if o.atomicKind() || o.kind == "SetLegacy" {
+			pr = w.rawProbe(o)
+			probes = append(probes, emit.Pair(zi(pr.class), zi(int64(pr.calls)), prev.minus(pr.obs).coq(), pr.obs.minus(prev).coq()))
+			if pr.class != 0 && !pr.obs.eq(prev) {
+				run.Count("raw leftover", fmt.Sprintf("%s:%d", o.kind, pr.class))
+			}
 		}
 		// pre-state facts for the oracles
 		var preLic *palomatypes.LightNodeClientLicense
@@ -705,6 +911,7 @@ func runHistory(run *emit.Run, idx int, hostile bool, script *scripted) {
 			}
 		}
 		w.oracle(run, o, class, preLic, now, prev, cur, replay)
+		w.oracleExt(run, o, class, pr, prev, cur, replay)
 		if class == 0 {
 			switch o.kind {
 			case "AddLicence", "Sale":
@@ -713,7 +920,7 @@ func runHistory(run *emit.Run, idx int, hostile bool, script *scripted) {
 				okAct++
 			}
 		}
-		steps = append(steps, emit.Pair(o.coq(), zi(class), prev.minus(cur).coq(), cur.minus(prev).coq()))
+		steps = append(steps, emit.Pair(o.coq(), zi(class), prev.minus(cur).coq(), cur.minus(prev).coq(), emit.List(probes)))
 		prev = cur
 	}
 	term := fmt.Sprintf("C18.CHist %d %s [0; 1] %s %s %s", start.Unix(), zl(U), emit.List(fund), obs0.coq(), emit.List(steps))
@@ -873,7 +1080,96 @@ func (w *world) oracle(run *emit.Run, o op, class int64, preLic *palomatypes.Lig
 	}
 }
 
+// oracleExt: second-round clauses checked directly on the real state.
+func (w *world) oracleExt(run *emit.Run, o op, class int64, pr *probe, prev, cur obs, replay any) {
+	// the raw keeper functions, when they fail, leave nothing or exactly one half-made account
+	if pr != nil && pr.class != 0 {
+		diff := append(prev.minus(pr.obs), pr.obs.minus(prev)...)
+		switch o.kind {
+		case "AddLicence", "Register":
+			who := o.b.id
+			if o.kind == "Register" {
+				who = o.a.id
+			}
+			for _, row := range diff {
+				if len(row) != 10 || row[0].Cmp(bi(int64(who))) != 0 {
+					run.Violate("C18:raw-leftover-unexpected", fmt.Sprintf("failed raw %s (class %d) left row %v", o.kind, pr.class, row), replay)
+					break
+				}
+			}
+			if len(diff) == 2 {
+				// same balances, only the account kind / schedule moved
+				a, b := diff[0], diff[1]
+				for j := 6; j < 8; j++ {
+					if a[j].Cmp(b[j]) != 0 {
+						run.Violate("C18:raw-leftover-unexpected", fmt.Sprintf("failed raw %s moved coins of address %d", o.kind, who), replay)
+					}
+				}
+			}
+		case "Sale":
+			for _, row := range diff {
+				if len(row) == 3 && row[0].Cmp(bi(102)) == 0 {
+					run.Violate("C18:raw-leftover-unexpected", "failed raw sale left a fee grant", replay)
+				}
+			}
+		}
+	}
+	if o.kind == "Genesis" && !cur.eq(prev) {
+		run.Violate("C18:genesis-round-trip-changed-state", "ExportGenesis + InitGenesis on a wiped x/paloma store changed the projection", replay)
+	}
+	if o.kind == "SetLegacy" {
+		// client records only, existing ones untouched
+		for _, row := range append(prev.minus(cur), cur.minus(prev)...) {
+			if row[0].Cmp(bi(101)) != 0 {
+				run.Violate("C18:legacy-import-touched-funds", fmt.Sprintf("row %v", row), replay)
+			}
+		}
+		for _, row := range prev.minus(cur) {
+			run.Violate("C18:legacy-import-altered-client", fmt.Sprintf("row %v", row), replay)
+		}
+	}
+	if o.kind == "Sale" && o.route == "try" && w.lastTry != nil {
+		t := w.lastTry
+		w.lastTry = nil
+		if t.cursor != t.nonce || !t.observed {
+			run.Violate("C18:attested-sale-not-consumed", fmt.Sprintf("nonce %d: cursor %d observed %v (handler class %d, panicked %v)", t.nonce, t.cursor, t.observed, class, t.panicked), replay)
+		}
+		if t.repeatErr == nil || !t.repeatSame {
+			run.Violate("C18:attested-sale-repeated", fmt.Sprintf("nonce %d: second TryAttestation err=%v, state unchanged=%v", t.nonce, t.repeatErr, t.repeatSame), replay)
+		}
+		if (class == -1) != t.panicked {
+			run.Violate("C18:attested-sale-panic-mismatch", fmt.Sprintf("handler class %d, TryAttestation panicked %v", class, t.panicked), replay)
+		}
+	}
+}
+
 // ---- function-level cases ----
+
+// boundary dates of the calendar: ends of long months, leap days of ordinary / century / 400-year
+// leap years, year ends, the epoch, before it, year 1, year 9999 and the far future
+func addMonthsBoundary(run *emit.Run) {
+	u := time.UTC
+	dates := []time.Time{
+		time.Date(2024, 1, 31, 0, 0, 0, 0, u), time.Date(2023, 1, 31, 12, 0, 0, 0, u), time.Date(1900, 1, 31, 0, 0, 0, 0, u),
+		time.Date(2000, 1, 31, 0, 0, 0, 0, u), time.Date(2100, 1, 31, 23, 59, 59, 0, u), time.Date(2024, 2, 29, 0, 0, 0, 0, u),
+		time.Date(2000, 2, 29, 6, 7, 8, 0, u), time.Date(2023, 2, 28, 0, 0, 0, 0, u), time.Date(2024, 3, 31, 0, 0, 0, 0, u),
+		time.Date(2025, 5, 31, 0, 0, 0, 0, u), time.Date(2025, 8, 31, 0, 0, 0, 0, u), time.Date(2025, 10, 31, 0, 0, 0, 0, u),
+		time.Date(2023, 12, 31, 23, 59, 59, 0, u), time.Date(2024, 12, 1, 0, 0, 0, 0, u), time.Date(1999, 12, 31, 23, 59, 59, 0, u),
+		time.Date(1970, 1, 1, 0, 0, 0, 0, u), time.Date(1969, 12, 31, 23, 59, 59, 0, u), time.Date(1, 1, 1, 0, 0, 0, 0, u),
+		time.Date(9999, 12, 31, 23, 59, 59, 0, u), time.Unix(1<<40, 0).UTC(), time.Date(2399, 11, 30, 0, 0, 0, 0, u),
+	}
+	ks := []int{0, 1, 2, 11, 12, 13, 24, 1200, 1<<32 - 1}
+	for _, t := range dates {
+		for _, k := range ks {
+			got := t.AddDate(0, k, 0).Unix()
+			run.Case(fmt.Sprintf("C18.CAddMonths %s %d %s", zi(t.Unix()), k, zi(got)), t.Day() > 28, nil)
+			run.Count("op", "AddDate boundary")
+			if got < t.Unix() {
+				run.Violate("C18:adddate-backwards", fmt.Sprintf("%d + %d months = %d", t.Unix(), k, got), map[string]any{"t": t.Unix(), "k": k})
+			}
+		}
+	}
+}
 
 func addMonthsCases(run *emit.Run, n int) {
 	r := run.Rng
@@ -917,6 +1213,8 @@ func vestedCases(run *emit.Run, n int) {
 	}
 }
 
+var faultPct = 30
+
 func TestCorr(t *testing.T) {
 	run := emit.Start("C18", 400)
 	run.Rule("histories of 6-20 operations (licence creation by message and by attested sale, activation, re-activation, " +
@@ -924,7 +1222,13 @@ func TestCorr(t *testing.T) {
 		"module account, fee grants, governance configuration with each piece sometimes missing, time steps) against the real " +
 		"x/paloma msg server + x/skyway attestation handler over real auth/bank/feegrant/vesting; 15% of histories draw hostile " +
 		"values (zero, negative, 2^200+, undecodable addresses, invalid denom). Non-trivial = at least one licence created or " +
-		"activated and at least one operation refused. Plus AddDate and GetVestedCoins compared at function level.")
+		"activated and at least one operation refused. Plus AddDate and GetVestedCoins compared at function level "+
+		"(AddDate also on a fixed table of boundary dates x month counts). Second round: the x/paloma keeper's AccountKeeper / "+
+		"BankKeeper / FeegrantKeeper are counting proxies; 30% of the licence creations, activations, sales and legacy imports "+
+		"get a fault at one of the calls measured on a fault-free run (or at the one after the last), by error or by panic; "+
+		"every such operation is also run RAW (no message branch / no attestation cache) on a throw-away branch and the "+
+		"leftovers are compared with the model's raw function; sales go half through processAttestation, half through "+
+		"TryAttestation under recover; MsgSetLegacyLightNodeClients and ExportGenesis/wipe/InitGenesis are history operations.")
 	nFn := run.N / 8
 	nHist := run.N - 2*nFn
 	replayCorpus(run)
@@ -935,9 +1239,10 @@ func TestCorr(t *testing.T) {
 		}
 		runHistory(run, i, hostile, nil)
 	}
+	addMonthsBoundary(run)
 	addMonthsCases(run, nFn)
 	vestedCases(run, nFn)
-	if err := run.Finish("Paloma.LightNode Corr.C18", "C18.case", "C18.check"); err != nil {
+	if err := run.Finish("Paloma.LightNode Paloma.LightNodeExt Corr.C18", "C18.case", "C18.check"); err != nil {
 		t.Fatal(err)
 	}
 }
